@@ -39,13 +39,17 @@ static void do_op(Cmd *c) {
         if (st != CC_OK) rb = NULL;
         o_stat(st); o(" ");
     } else if (is_op(c, "new_default")) {
-        rb = NULL; default_mode = 1; enum cc_stat st = cc_rbuf_new(&rb); if (st != CC_OK) rb = NULL; o_stat(st); o(" ");
+        rb = NULL; enum cc_stat st = cc_rbuf_new(&rb); if (st != CC_OK) rb = NULL; o_stat(st); o(" ");
     } else if (!rb) { o("st=- nosession"); o_sep(); o("-"); return;
     } else if (is_op(c, "enqueue")) {
         cc_rbuf_enqueue(rb, pos_u64(c, 0)); o("st=- ");
     } else if (is_op(c, "dequeue")) {
         uint64_t out = 777777; enum cc_stat st = cc_rbuf_dequeue(rb, &out);
         o_stat(st); if (st == CC_OK) o(" out=%" PRIu64, out); o(" ");
+    } else if (is_op(c, "peek")) {
+        long long idx = c->npos > 0 ? strtoll(c->pos[0], NULL, 10) : 0;
+        uint64_t v = cc_rbuf_peek(rb, (int) idx);
+        o("st=- out=%" PRIu64 " ", v);
     } else if (is_op(c, "destroy")) {
         cc_rbuf_destroy(rb); rb = NULL; o("st=- ");
     } else { o("st=- badop "); }
